@@ -496,4 +496,16 @@ theorem webFormat_eq (s : Text) :
     have h2 : s.isEmpty = false := by simpa using hs
     simp [hf, h1, h2]
 
+/-! ## whole-line edits -/
+
+theorem splitOn_flatMap_append (xs : List Text) (rest : Text) (h : ∀ x ∈ xs, '\n' ∉ x) :
+    splitOn '\n' (xs.flatMap (· ++ ['\n']) ++ rest) = xs ++ splitOn '\n' rest := by
+  induction xs with
+  | nil => simp
+  | cons x tl ih =>
+    simp only [List.flatMap_cons, List.append_assoc, List.cons_append]
+    rw [splitOn_append_sep '\n' x _ (h x (by simp))]
+    simp only [List.nil_append]
+    rw [ih (fun y hy => h y (by simp [hy]))]
+
 end TrustVerif.C15
